@@ -133,6 +133,44 @@ type Cfg struct {
 	Hostname, Username, Password, HostProc, AppName, ServName, Language, CharSet []byte
 	Encrypt                                                                     int
 	Remote                                                                      [][2][]byte
+	// InfoMask > 0: the LoginConfig is the library's DEFAULT configuration for the connection description InfoOf(InfoMask-1)
+	// (tds.NewLoginConfig), with the name fields overwritten; its Encrypt is whatever the library chose, while the case
+	// records Encrypt = ENCRYPT4: "password encryption is negotiated in the default configuration" is part of C09.
+	InfoMask int
+}
+
+// InfoOf: connection descriptions over all combinations of the settings a default configuration could depend on
+const InfoBits = 10
+
+func InfoOf(mask int) *tds.Info {
+	info := &tds.Info{}
+	bit := func(i int) bool { return mask&(1<<i) != 0 }
+	info.Host, info.Port, info.Network, info.ClientHostname = "h", "5000", "tcp", "client"
+	info.TLSEnable = bit(0)
+	info.TLSSkipValidation = bit(1)
+	info.DebugLogPackages = bit(2)
+	if bit(3) {
+		info.Port = "tls"
+	}
+	if bit(4) {
+		info.TLSHostname = "db.example.org"
+	}
+	if bit(5) {
+		info.TLSCAFile = "/nonexistent/ca.pem"
+	}
+	if bit(6) {
+		info.Network = "udp"
+	}
+	if bit(7) {
+		info.Host = "a-host-name-that-is-longer-than-thirty-bytes.example.org"
+	}
+	if bit(8) {
+		info.PacketReadTimeout, info.ChannelPackageQueueSize = 50, 100
+	}
+	if bit(9) {
+		info.Database = "db1"
+	}
+	return info
 }
 
 func (c Cfg) Tree() sx.T {
@@ -148,6 +186,21 @@ func (c Cfg) config() *tds.LoginConfig {
 	info := &tds.Info{}
 	info.Username = string(c.Username)
 	info.Password = string(c.Password)
+	if c.InfoMask > 0 {
+		info = InfoOf(c.InfoMask - 1)
+		info.Username = string(c.Username)
+		info.Password = string(c.Password)
+		lc, err := tds.NewLoginConfig(info)
+		if err != nil {
+			panic(err)
+		}
+		lc.Hostname, lc.HostProc, lc.AppName, lc.ServName, lc.Language, lc.CharSet = string(c.Hostname), string(c.HostProc),
+			string(c.AppName), string(c.ServName), string(c.Language), string(c.CharSet)
+		for _, r := range c.Remote {
+			lc.RemoteServers = append(lc.RemoteServers, tds.LoginConfigRemoteServer{Name: string(r[0]), Password: string(r[1])})
+		}
+		return lc
+	}
 	lc := &tds.LoginConfig{DSN: info, Hostname: string(c.Hostname), HostProc: string(c.HostProc), AppName: string(c.AppName),
 		ServName: string(c.ServName), Language: string(c.Language), CharSet: string(c.CharSet), Encrypt: tds.TDSMsgId(c.Encrypt)}
 	for _, r := range c.Remote {
